@@ -8,14 +8,22 @@ import CLModel.Ops.C19
 import CLModel.Ops.C03
 import CLModel.Ops.C10
 import CLModel.Ops.C16
+import CLModel.Ops.C17
+import CLModel.Ops.C14
+import CLModel.Ops.C06
+import CLModel.Ops.C15
 
 def allOps : List (String × (List String → String)) :=
-  Ops.Rx.ops ++ Ops.C20.ops ++ Ops.C01.ops ++ Ops.C04.ops ++ Ops.C05.ops ++ Ops.C19.ops ++ Ops.C03.ops ++ Ops.C10.ops ++ Ops.C16.ops
+  Ops.Rx.ops ++ Ops.C20.ops ++ Ops.C01.ops ++ Ops.C04.ops ++ Ops.C05.ops ++ Ops.C19.ops ++ Ops.C03.ops ++ Ops.C10.ops ++ Ops.C16.ops ++ Ops.C17.ops ++ Ops.C14.ops ++ Ops.C06.ops ++ Ops.C15.ops
+
+/-- names of all operations (the harness checks that they are pairwise distinct) -/
+def opNames : String := " ".intercalate (allOps.map (·.1))
 
 def handle (line : String) : String :=
   match ((Proto.splitChars (Char.ofNat 32) (line.toList.filter (fun c => c != (Char.ofNat 10) && c != (Char.ofNat 13)))).map String.ofList).filter (· ≠ "") with
   | [] => "bad-op"
   | op :: args =>
+    if op == "ops.list" then opNames else
     match allOps.find? (·.1 == op) with
     | some (_, f) => f args
     | none => "bad-op"
